@@ -182,6 +182,23 @@ def spec_uninterpreted(name, params, returns, axioms=()):
     REG.spec_axioms[name] = list(axioms)
 
 
+def class_typed_sequence(cls, field, attr):
+    """the container class of `cls.field` is chosen per resource class by the class attribute `attr` (e.g. BaseResource.put_queue
+    is `self.PutQueue()`: a list, or a sorted queue whose `append` inserts in priority order).  Representation obligation: a
+    value stored into the field that is not created by `self.<attr>()` is a plain list, which is only the right class for
+    receivers whose `attr` is `list`."""
+    if not hasattr(REG, "class_typed"):
+        REG.class_typed = {}
+    REG.class_typed[(cls, field)] = attr
+
+
+def disjoint_classes(a, b, why=""):
+    """ASSUMPTION (listed in evidence): no class derives from both a and b"""
+    if not hasattr(REG, "disjoint"):
+        REG.disjoint = []
+    REG.disjoint.append((a, b, why))
+
+
 def lemma(name, hyps=(), concl=None, vars=None, props=(), note=""):
     REG.lemmas[name] = Lemma(name, hyps, concl, vars or {}, props, note)
 
